@@ -73,15 +73,16 @@ Print Assumptions C01_event_loop_delivery.
 (* The whole connection attempt, from WebSocket.connect(): the request is written, the server's upgrade reply (any block
    the handshake decision accepts without compression) arrives in one read, then the conforming stream in any pieces.
    The message events among everything the iterator yields are exactly the messages of the reference reading: one
-   event per message, in the order the messages complete, with their payloads. *)
-Theorem C01_run_delivery : forall cf app, passive app -> zpos (c_ping_timeout cf) = None ->
+   event per message, in the order the messages complete, with their payloads -- for ANY application that only sends
+   (text, binary, ping, pong; at Connecting, Connected, Ready, at every message and every Poll; compressed or not). *)
+Theorem C01_run_delivery : forall cf app, benign app -> zpos (c_ping_timeout cf) = None ->
   forall keys wf zt ct dt0 reply proto steps fs lfs ms open',
   (match wf with [] => True | w :: _ => w = WOk end) ->
   reply_block reply -> on_response (c_accept cf) (parse_response reply) = HReady proto None ->
   Forall quiet_step steps -> Forall plain fs -> forms_ok fs lfs ->
   ref_messages [] fs = Some (ms, open') -> encode_all fs lfs = concat (reads_of steps) ->
   msg_events (k_tr (run cf app (init keys wf zt ct) CnOk (StRead dt0 (RData reply) :: steps))) = rev (map ev_of ms).
-Proof. exact run_delivers. Qed.
+Proof. exact run_delivers_benign. Qed.
 Print Assumptions C01_run_delivery.
 
 (* ---------- the hypotheses are met: a connection right after an accepted handshake, and a stream with a fragmented
